@@ -16,9 +16,13 @@ fn json_fields(s: &str) -> Option<(String, String, String)> {
 }
 
 fn epoch_str(r: &mut Prng) -> String {
-  match r.below(6) {
+  match r.below(9) {
     0 => String::new(),
     1 => "t".into(),
+    // white space is part of the epoch: clients that used it get their key only under exactly that string
+    6 => "2024-06 ".into(),
+    7 => " t\n".into(),
+    8 => "\u{a0}w\u{3000}".into(),
     2 => "2024-05".into(),
     3 => "épöque-ü".into(),
     4 => "\u{65e5}\u{672c}\u{1f600}".into(),
@@ -118,6 +122,12 @@ pub fn gen_c17(seed: u64, thorough: bool, only: Option<u64>, out: &mut Out) {
     }
     let other_epoch = format!("{}x", epoch);
     variants.push((shares_b64[..tt].to_vec(), other_epoch, None, "t distinct shares, different epoch"));
+    // epochs that differ only in surrounding white space are different epochs
+    for (k, other) in [format!("{} ", epoch), format!("{}\n", epoch), format!(" {}", epoch), epoch.trim().to_string()].into_iter().enumerate() {
+      if other != epoch {
+        variants.push((shares_b64[..tt].to_vec(), other, None, ["t distinct shares, epoch plus a trailing blank", "t distinct shares, epoch plus a newline", "t distinct shares, epoch with a leading blank", "t distinct shares, trimmed epoch"][k]));
+      }
+    }
     // foreign measurement: single share of another measurement first
     let mut m2 = m.clone();
     m2.push(1);
@@ -195,6 +205,10 @@ pub fn gen_c18(seed: u64, thorough: bool, only: Option<u64>, out: &mut Out) {
     let t = *r.pick(&[1u32, 2, 3, 4]);
     let epoch: String = (0..r.below(4)).map(|_| (b'a' + r.below(26) as u8) as char).collect();
     let ngroups = if thorough { 2 + r.below(60) as usize } else { 2 + r.below(9) as usize };
+    // one large submission (over a thousand reports, groups interleaved by the shuffle): batching and merging of
+    // partial results only show at this size
+    let big = gi == 1 || (thorough && gi % 40 == 7);
+    let ngroups = if big { 520 } else { ngroups };
     let mut wire: Vec<Vec<u8>> = vec![];
     let mut expected: Vec<(Vec<u8>, Vec<Option<Vec<u8>>>)> = vec![];
     let mut has_empty_aux = false;
@@ -208,7 +222,7 @@ pub fn gen_c18(seed: u64, thorough: bool, only: Option<u64>, out: &mut Out) {
       if size == 0 {
         continue;
       }
-      let m = { let mut mm = { let l_ = 1 + r.below(20) as usize; r.bytes(l_) }; mm.push(g as u8); mm };
+      let m = { let mut mm = { let l_ = 1 + r.below(20) as usize; r.bytes(l_) }; mm.push(g as u8); mm.push((g >> 8) as u8); mm };
       let auxs: Vec<Option<Vec<u8>>> = (0..size)
         .map(|i| match (i + g) % 4 {
           0 => None,
